@@ -422,13 +422,20 @@ func rewriteStmt(s ast.Stmt, label *ast.Ident) []ast.Stmt {
 				return []ast.Stmt{wrapLabel(label, v)}
 			}
 		}
+		var pre []ast.Stmt
 		for i := range v.Lhs {
-			v.Lhs[i] = rewriteExpr(v.Lhs[i])
+			var p ast.Stmt
+			v.Lhs[i], p = rewriteLHS(v.Lhs[i], v.Tok)
+			if p != nil {
+				pre = append(pre, p)
+			}
 		}
 		for i := range v.Rhs {
 			v.Rhs[i] = rewriteExpr(v.Rhs[i])
 		}
-		return []ast.Stmt{wrapLabel(label, v)}
+		out := append(pre, ast.Stmt(v))
+		out[0] = wrapLabel(label, out[0])
+		return out
 	case *ast.DeclStmt:
 		if gd, ok := v.Decl.(*ast.GenDecl); ok {
 			for _, sp := range gd.Specs {
@@ -453,7 +460,11 @@ func rewriteStmt(s ast.Stmt, label *ast.Ident) []ast.Stmt {
 		}
 		return []ast.Stmt{wrapLabel(label, v)}
 	case *ast.IncDecStmt:
-		v.X = rewriteExpr(v.X)
+		var p ast.Stmt
+		v.X, p = rewriteLHS(v.X, token.ASSIGN)
+		if p != nil {
+			return []ast.Stmt{wrapLabel(label, p), v}
+		}
 		return []ast.Stmt{wrapLabel(label, v)}
 	case *ast.BlockStmt:
 		rewriteBlock(v)
@@ -494,6 +505,49 @@ func rewriteStmt(s ast.Stmt, label *ast.Ident) []ast.Stmt {
 		// BranchStmt, EmptyStmt, …
 		return []ast.Stmt{wrapLabel(label, s)}
 	}
+}
+
+// rewriteLHS rewrites an assignment target: an element of a map is a map
+// write, a field reached through a pointer is a field write (reported by a
+// statement that precedes the assignment).
+func rewriteLHS(e ast.Expr, tok token.Token) (ast.Expr, ast.Stmt) {
+	if tok == token.DEFINE {
+		return rewriteExpr(e), nil
+	}
+	switch v := unparen(e).(type) {
+	case *ast.IndexExpr:
+		if isMap(v.X) {
+			st := site(v)
+			v.X = rewriteExpr(v.X)
+			v.Index = rewriteExpr(v.Index)
+			stats["mapwrite"]++
+			v.X = hook("MW", str(st), v.X)
+			return v, nil
+		}
+	case *ast.SelectorExpr:
+		if sel := info.Selections[v]; sel != nil && sel.Kind() == types.FieldVal {
+			if t := typeOf(v.X); t != nil {
+				if _, isPtr := t.Underlying().(*types.Pointer); isPtr && pureExpr(v.X) {
+					stats["fieldwrite"]++
+					return e, exprStmt(hook("FW", str(site(v)), &ast.UnaryExpr{Op: token.AND, X: &ast.SelectorExpr{X: v.X, Sel: v.Sel}}))
+				}
+			}
+		}
+	}
+	return rewriteExpr(e), nil
+}
+
+// pureExpr: identifiers and field selections only (safe to evaluate twice).
+func pureExpr(e ast.Expr) bool {
+	switch v := unparen(e).(type) {
+	case *ast.Ident:
+		return true
+	case *ast.SelectorExpr:
+		return pureExpr(v.X)
+	case *ast.StarExpr:
+		return pureExpr(v.X)
+	}
+	return false
 }
 
 // single rewrites a statement in a position where only one statement is allowed.
@@ -816,6 +870,22 @@ func rewriteExpr(e ast.Expr) ast.Expr {
 				return hook("Close", str(site(v)), rewriteExpr(v.Args[0]))
 			}
 		}
+		if fn, ok := v.Fun.(*ast.Ident); ok && len(v.Args) >= 1 && isMap(v.Args[0]) {
+			if _, isBuiltin := info.Uses[fn].(*types.Builtin); isBuiltin && (fn.Name == "delete" || fn.Name == "len") {
+				st := site(v)
+				for i := range v.Args {
+					v.Args[i] = rewriteExpr(v.Args[i])
+				}
+				if fn.Name == "delete" {
+					stats["mapwrite"]++
+					v.Args[0] = hook("MW", str(st), v.Args[0])
+				} else {
+					stats["mapread"]++
+					v.Args[0] = hook("MR", str(st), v.Args[0])
+				}
+				return v
+			}
+		}
 		if _, name := syncMethod(v); name != "" {
 			warn(v, "sync.%s in expression position is not instrumented", name)
 		}
@@ -831,8 +901,14 @@ func rewriteExpr(e ast.Expr) ast.Expr {
 	case *ast.SelectorExpr:
 		v.X = rewriteExpr(v.X)
 	case *ast.IndexExpr:
+		wasMap := isMap(v.X)
+		st := site(v)
 		v.X = rewriteExpr(v.X)
 		v.Index = rewriteExpr(v.Index)
+		if wasMap {
+			stats["mapread"]++
+			v.X = hook("MR", str(st), v.X)
+		}
 	case *ast.SliceExpr:
 		v.X = rewriteExpr(v.X)
 		v.Low, v.High, v.Max = rewriteExpr(v.Low), rewriteExpr(v.High), rewriteExpr(v.Max)
